@@ -253,6 +253,9 @@ type evalLog struct {
 	overflow            bool
 	nanX                bool // some evaluation point had a NaN or Inf coordinate
 	firstBad            int  // what went non-finite first: 1 a value or gradient at a finite point, 2 an evaluation point
+	best                float64
+	hasBest             bool
+	lastImprove         int // value of nFunc when the lowest F so far was found
 }
 
 func newEvalLog(dim, capacity int) *evalLog {
@@ -262,12 +265,12 @@ func newEvalLog(dim, capacity int) *evalLog {
 // runawayLimit bounds the callbacks of one Minimize call; every limit the
 // harness configures is far below it. defaultSettingsRunaway is the bound for
 // runs with no limit at all (isolated == 4), which stop when the default
-// convergence tests say so: on the quadratics generated here (condition number
-// below 300) gradient descent, the slowest method, needs a few thousand
-// iterations of a few evaluations each.
+// convergence tests say so. Past it a run is a violation only if it has stopped
+// moving (the same point, or a NaN point, evaluated again and again); a run
+// that is still lowering F is abandoned without a verdict.
 const (
 	runawayLimit           = 6000
-	defaultSettingsRunaway = 150000
+	defaultSettingsRunaway = 60000
 )
 
 //go:norace
@@ -317,6 +320,9 @@ func (l *evalLog) leave() { l.inflight-- }
 func (l *evalLog) recFunc(x []float64, f float64) {
 	l.nFunc++
 	l.note(x, f)
+	if !l.hasBest || f < l.best {
+		l.best, l.hasBest, l.lastImprove = f, true, l.nFunc
+	}
 	if l.n < len(l.fs) {
 		for i := 0; i < l.dim; i++ {
 			l.xs[l.n*l.dim+i] = x[i]
@@ -794,6 +800,15 @@ func (in *minInst) build() *minRun {
 	r.prob.Func = func(x []float64) float64 {
 		log.enter()
 		if log.runaway() {
+			if in.isolated == 4 && log.firstBad != 2 && !log.stalled(200) && log.nFunc-log.lastImprove < 5000 {
+				// No limit is configured and the run is still moving (distinct
+				// finite points, a new lowest F within the last 5000
+				// evaluations): slow convergence is not nontermination. CG
+				// with Backtracking zigzags for > 10^5 evaluations on some of
+				// the quadratics, lowering F a little every iteration. No
+				// verdict.
+				simrt.Fail("inconclusive/slow-convergence: still making progress after the callback budget")
+			}
 			kind := "finite-objective"
 			if !log.allFinite() {
 				kind = "non-finite-objective"
@@ -990,7 +1005,7 @@ func runMinimize(t *simrt.Tape, rc *RunCtx) *Violation {
 	if c19 {
 		rc.declare("recorder_error_injected", "status_callback_terminated_run", "runtime_limit_hit")
 	}
-	rc.declare("method_value_reused", "limit_overshoot_by_concurrency", "result_nil_early_error", "nan_or_inf_objective_hit", "method_done_with_tasks_in_flight", "trailing_major_iterations", "init_values_used", "isolated_cause_run",
+	rc.declare("method_value_reused", "limit_overshoot_by_concurrency", "result_nil_early_error", "nan_or_inf_objective_hit", "method_done_with_tasks_in_flight", "trailing_major_iterations", "init_values_used", "isolated_cause_run", "default_settings_run_abandoned_still_converging",
 		"concurrent_evaluations_overlapped", "tiny_limit_below_one_generation")
 
 	single := !isGlobal(in.method) // one task token circulates
@@ -1000,6 +1015,10 @@ func runMinimize(t *simrt.Tape, rc *RunCtx) *Violation {
 	if single && timeFree {
 		base = in.build()
 		_, v := rc.Sim(prop, simrt.ReplayTape(nil), baselineConfig(), base.run)
+		if v != nil && strings.HasPrefix(v.Oracle, "minimize/inconclusive/") {
+			rc.probe("default_settings_run_abandoned_still_converging", 1)
+			return nil
+		}
 		if v != nil {
 			v.Msg = "[in the FIFO baseline simulation] " + v.Msg
 			return v
@@ -1015,6 +1034,10 @@ func runMinimize(t *simrt.Tape, rc *RunCtx) *Violation {
 	rc.Instance["gomaxprocs"] = cfg.GOMAXPROCS
 	r := in.build()
 	_, v := rc.Sim(prop, t, cfg, r.run)
+	if v != nil && strings.HasPrefix(v.Oracle, "minimize/inconclusive/") {
+		rc.probe("default_settings_run_abandoned_still_converging", 1)
+		return nil
+	}
 	if v != nil {
 		return v
 	}
